@@ -14,6 +14,7 @@ import (
 	"sort"
 	"strings"
 	"sync"
+	"sync/atomic"
 	"time"
 
 	bs "github.com/danthegoodman1/bloomsearch"
@@ -224,6 +225,7 @@ func runC06(c *ctx) {
 	}
 	c06NilRow(c)
 	c06ShutdownFlush(c)
+	c06FSDirectory(c, "C06")
 	c.r.Exhaustive = true
 	c.r.Note("every single fault position of each flush shape enumerated; pairs: %s", map[bool]string{true: "all", false: "12 sampled per shape"}[c.tier == "thorough"])
 }
@@ -471,6 +473,7 @@ func runC13(c *ctx) {
 		"position (exhaustive) on an identical copy and the return value, MetaStore content, tombstones and a match-all query are compared with the Lean merge protocol; plus concurrent Merge calls. " +
 		"Non-trivial = the fault was reached; distinct by (population, position)"
 	r := NewRng(c.seed, 1300)
+	c06FSDirectory(c, "C13")
 	pops := 4 * c.scale
 	for pi := 0; pi < pops; pi++ {
 		pop := buildMergePop(r, pi%2 == 1)
@@ -936,5 +939,160 @@ func runC10(c *ctx) {
 		if !ok {
 			c.r.Add(Finding{Kind: "violation", Check: "time-trigger-trickle", Detail: fmt.Sprintf("with a batch arriving every %v the first batch was not answered within %v of MaxBufferedTime=%v; took %v in three attempts (the buffer's age must be measured from its oldest row)", mbt/5, limit, mbt, took), Replay: map[string]any{"MaxBufferedTime": mbt.String(), "trickle": (mbt / 5).String()}})
 		}
+	}
+}
+
+// ---------------------------------------------------------------- FileSystemDataStore as both stores
+
+// fsBoth wraps the shipped FileSystemDataStore used as DataStore and MetaStore: TombstoneFile can be made to
+// fail (after which nothing is removed), and Update can be made to wait for its context to end and fail with
+// the context's error (a MetaStore client that honours cancellation).
+type fsBoth struct {
+	*bs.FileSystemDataStore
+	failTombstones atomic.Bool
+	updateWaitsCtx atomic.Bool
+	updateEntered  chan struct{}
+}
+
+func (f *fsBoth) TombstoneFile(ctx context.Context, p []byte) error {
+	if f.failTombstones.Load() {
+		return errInjected
+	}
+	return f.FileSystemDataStore.TombstoneFile(ctx, p)
+}
+
+func (f *fsBoth) Update(ctx context.Context, w []bs.WriteOperation, d []bs.DeleteOperation) error {
+	if f.updateWaitsCtx.Load() {
+		select {
+		case f.updateEntered <- struct{}{}:
+		default:
+		}
+		<-ctx.Done()
+		return ctx.Err()
+	}
+	return f.FileSystemDataStore.Update(ctx, w, d)
+}
+
+func freshOverDir(cfg bs.BloomSearchEngineConfig, dir string) map[int]int {
+	st := bs.NewFileSystemDataStore(dir)
+	eng, err := bs.NewBloomSearchEngine(cfg, st, st)
+	if err != nil {
+		fatal("engine: %v", err)
+	}
+	got, _ := visibleIDs(eng)
+	return got
+}
+
+// c06FSDirectory: acknowledgements stay truthful when the directory is the MetaStore.
+//
+//	(1) a merge commits and the tombstoning of its sources then fails: the merge is committed
+//	    (ErrPostCommitCleanup), and every acknowledged row is still visible exactly once, here and to a fresh engine;
+//	(2) Stop's deadline ends while a flush is between publishing its file and committing it, the commit fails
+//	    with the context's error: the batch is acknowledged with an error and none of its rows is visible to a
+//	    fresh engine over the directory.
+func c06FSDirectory(c *ctx, which string) {
+	// (1)
+	for _, groups := range []int{1, 2} {
+		dir, err := os.MkdirTemp("", "bsfsboth")
+		if err != nil {
+			fatal("tempdir: %v", err)
+		}
+		cfg := bs.DefaultBloomSearchEngineConfig()
+		cfg.PartitionFunc = partitionFunc("p")
+		cfg.MaxBufferedTime = time.Hour
+		st := &fsBoth{FileSystemDataStore: bs.NewFileSystemDataStore(dir), updateEntered: make(chan struct{}, 1)}
+		eng, err := bs.NewBloomSearchEngine(cfg, st, st)
+		if err != nil {
+			fatal("engine: %v", err)
+		}
+		eng.Start()
+		id := 0
+		want := map[int]int{}
+		acks := 0
+		for f := 0; f < 2; f++ {
+			for g := 0; g < groups; g++ {
+				id++
+				done := make(chan error, 1)
+				eng.IngestRows(context.Background(), []map[string]any{{"_id": id, "p": fmt.Sprint("g", g)}}, done)
+				eng.Flush(context.Background())
+				if <-done == nil {
+					want[id] = 1
+					acks++
+				}
+			}
+		}
+		st.failTombstones.Store(true)
+		stats, merr := eng.Merge(context.Background())
+		st.failTombstones.Store(false)
+		here, _ := visibleIDs(eng)
+		fresh := freshOverDir(cfg, dir)
+		replay := map[string]any{"store": "FileSystemDataStore as DataStore and MetaStore", "merge_groups": groups, "merge_err": fmt.Sprint(merr), "merge_stats_nil": stats == nil, "acknowledged": acks}
+		c.r.Case(true, fmt.Sprint("fs-postcommit-tombstone-failure", groups))
+		c.r.Hit("fsdir.postcommit-tombstone-failure")
+		if fmt.Sprint(here) != fmt.Sprint(want) || fmt.Sprint(fresh) != fmt.Sprint(want) {
+			c.r.Add(Finding{Kind: "violation", Check: "ack-vs-visibility", Detail: fmt.Sprintf("after a merge whose source tombstones failed (Merge returned %v), this engine sees ids %v and a fresh engine over the directory %v; every acknowledged row must be visible exactly once: %v", merr, here, fresh, want), Replay: replay})
+		}
+		if which == "C13" && merr != nil && !errors.Is(merr, bs.ErrPostCommitCleanup) && fmt.Sprint(fresh) != fmt.Sprint(want) {
+			c.r.Add(Finding{Kind: "violation", Check: "merge-outcome", Detail: fmt.Sprintf("Merge returned %v (not ErrPostCommitCleanup) but the visible content changed", merr), Replay: replay})
+		}
+		eng.Stop(context.Background())
+		os.RemoveAll(dir)
+	}
+	if which != "C06" {
+		return
+	}
+	// (2)
+	for rep := 0; rep < 2; rep++ {
+		dir, err := os.MkdirTemp("", "bsfsboth")
+		if err != nil {
+			fatal("tempdir: %v", err)
+		}
+		cfg := bs.DefaultBloomSearchEngineConfig()
+		cfg.MaxBufferedTime = time.Hour
+		st := &fsBoth{FileSystemDataStore: bs.NewFileSystemDataStore(dir), updateEntered: make(chan struct{}, 1)}
+		eng, err := bs.NewBloomSearchEngine(cfg, st, st)
+		if err != nil {
+			fatal("engine: %v", err)
+		}
+		eng.Start()
+		d0 := make(chan error, 1)
+		eng.IngestRows(context.Background(), []map[string]any{{"_id": 1}}, d0)
+		eng.Flush(context.Background())
+		ack0 := <-d0
+		st.updateWaitsCtx.Store(true)
+		d1 := make(chan error, 1)
+		eng.IngestRows(context.Background(), []map[string]any{{"_id": 2}, {"_id": 3}}, d1)
+		go eng.Flush(context.Background())
+		entered := false
+		select {
+		case <-st.updateEntered:
+			entered = true
+		case <-time.After(5 * time.Second):
+		}
+		sctx, scancel := context.WithTimeout(context.Background(), 60*time.Millisecond)
+		serr := eng.Stop(sctx)
+		scancel()
+		var ack1 error
+		answered := false
+		select {
+		case ack1 = <-d1:
+			answered = true
+		case <-time.After(3 * time.Second):
+		}
+		st.updateWaitsCtx.Store(false)
+		fresh := freshOverDir(cfg, dir)
+		replay := map[string]any{"store": "FileSystemDataStore as DataStore, a cancellation-honouring wrapper of it as MetaStore", "update_entered": entered, "stop_err": fmt.Sprint(serr), "ack_first_batch": fmt.Sprint(ack0), "ack_second_batch": fmt.Sprint(ack1), "answered": answered}
+		c.r.Case(entered, fmt.Sprint("fs-deadline-between-publish-and-commit", rep))
+		c.r.Hit("fsdir.deadline-between-publish-and-commit")
+		if entered && answered && ack1 != nil && (fresh[2] != 0 || fresh[3] != 0) {
+			c.r.Add(Finding{Kind: "violation", Check: "ack-vs-visibility", Detail: fmt.Sprintf("Stop's deadline ended while a flush was committing; the batch was acknowledged with %q, yet a fresh engine over the directory sees its rows: %v", ack1, fresh), Replay: replay})
+		}
+		if entered && answered && ack1 == nil && (fresh[2] != 1 || fresh[3] != 1) {
+			c.r.Add(Finding{Kind: "violation", Check: "ack-vs-visibility", Detail: fmt.Sprintf("the batch was acknowledged nil but a fresh engine over the directory sees %v", fresh), Replay: replay})
+		}
+		if ack0 == nil && fresh[1] != 1 {
+			c.r.Add(Finding{Kind: "violation", Check: "ack-vs-visibility", Detail: fmt.Sprintf("the first batch was acknowledged nil but a fresh engine over the directory sees %v", fresh), Replay: replay})
+		}
+		os.RemoveAll(dir)
 	}
 }
